@@ -433,14 +433,15 @@ def build(repo):
     ensures index < self.vec@.len() ==> r == Some(&self.vec@[index as int]),
             index >= self.vec@.len() ==> r.is_none(),
 """)
-    U.fn(F, "impl LeaderSelection :: fn leader_weighted_eligibility", wrap="impl LeaderSelection", ret="r",
+    # C10 too: view_leader is called with the view of a network message before its justification is checked, so it must be total (F1, F2)
+    U.fn(F, "impl LeaderSelection :: fn leader_weighted_eligibility", wrap="impl LeaderSelection", ret="r", props=["C11", "C10"],
          subs=[("input.to_be_bytes()", "u64_to_be_bytes(input)")],
          proof_at_start="broadcast use big_of_val;",
          spec="""
     requires total_weight > 0,
     ensures r as int == spec_elig(input, total_weight), r < total_weight,
 """)
-    U.fn(F, "impl Schedule :: fn view_leader", wrap="impl Schedule", ret="r",
+    U.fn(F, "impl Schedule :: fn view_leader", wrap="impl Schedule", ret="r", props=["C11", "C10"],
          subs=[("validator::PublicKey", "PublicKey", None)],
          header_subs=[("validator::PublicKey", "PublicKey")],
          loops={0: dict(prefix="for l in self.leaders.iter()", iter="it", inv="""
